@@ -67,12 +67,16 @@ OTHER_LINES = [ln.replace("inch = 2 * ua", "inch = 5 * ua").replace("foot = 12 *
 EVENTS = [
     ("q", "conv"), ("q", "parse"), ("q", "root"), ("q", "base"), ("q", "base_fsys"), ("q", "compat"), ("q", "dim"), ("q", "fmt"), ("q", "compact"), ("q", "expr"), ("q", "tobase"),
     ("define", "foo = 3 * inch"), ("define", "ms = 5 * ua"), ("define", "league = 3 * mile = lg"),
+    ("define", "inch = 5 * ua = in"),  # an EXISTING unit defined again (allowed: on_redefinition='warn'): everything derived from it follows
     ("enable", "R"), ("enable", "RB"), ("disable",),
     ("system", "fsys"), ("system", "isys"), ("system", None),
     ("other",), ("deepcopy",),
     # a query made inside a with-block: declaratively neutral, but the cache / unit-table layers are switched twice
     ("within", "R", "conv"), ("within", "RB", "base"),
 ]
+
+
+REDEFINE = ("define", "inch = 5 * ua = in")
 
 
 def fr(x):
@@ -144,6 +148,18 @@ class CacheDriver(explore.Driver):
 
     def events(self):
         return list(EVENTS)
+
+    def enabled(self, hist):
+        # defining an EXISTING unit again while a context is active writes into that context's overlay — the recorded
+        # "unit defined while a redefining context was active" mechanism; the redefinition event is explored on an
+        # empty context stack only, where nothing of that kind is involved
+        depth = 0
+        for e in hist:
+            if e[0] == "enable":
+                depth += 1
+            elif e[0] == "disable" and depth:
+                depth -= 1
+        return [e for e in EVENTS if not (e == REDEFINE and depth)]
 
     def apply(self, s, ev):
         r = s.reg
